@@ -46,6 +46,35 @@ func c14(e *Env) {
 		}
 		return
 	}
+	if c.Choose("mixed-versions", 3) == 2 {
+		// a node that speaks only protocol v3 joins the v4 cluster: when the control connection
+		// fails over, the proxy may try it, be negotiated down, and has to give that connection
+		// up (it cannot use another version than the one its sessions use)
+		n := w.AddNode(true)
+		n.MaxVersion = primitive.ProtocolVersion3
+		n.Joined = true
+		w.EmitEvent(&message.TopologyChangeEvent{ChangeType: primitive.TopologyChangeTypeNewNode, Address: &primitive.Inet{Addr: n.IP, Port: 9042}})
+		w.RunUntil(func() bool { return false }, 15*time.Second)
+		e.Res.Stats["probe.c14.older_node_in_cluster"]++
+		// the control connection is lost a few times in a row, so that the fail-over rotation passes
+		// over the older node
+		for k := 0; k < len(w.Nodes)+c.Choose("mixed-kills", 2) && !w.Stopped(); k++ {
+			for _, cc := range append([]*world.BackendConn(nil), w.ControlConns...) {
+				if cc.Registered && cc.Node.MaxVersion != primitive.ProtocolVersion3 {
+					cc.Reset("fault: control connection killed (rotation over the older node)")
+				}
+			}
+			w.RunUntil(func() bool {
+				for _, cc := range w.ControlConns {
+					if !cc.Closed && cc.Registered && cc.Node.MaxVersion != primitive.ProtocolVersion3 {
+						return true
+					}
+				}
+				return false
+			}, 3*time.Minute)
+			w.RunUntil(func() bool { return false }, 2*time.Second)
+		}
+	}
 	var cls []*c14client
 	var events []*emitted
 	evCtr := 0
@@ -177,6 +206,17 @@ func c14(e *Env) {
 			cc := w.ControlConns[len(w.ControlConns)-1]
 			if cc.Closed || !cc.Registered {
 				return
+			}
+			// every node announces a schema change to the connections registered with it: should the
+			// proxy hold more than one registered connection, it hears the change more than once
+			for _, other := range w.ControlConns[:len(w.ControlConns)-1] {
+				if !other.Closed && other.Registered {
+					// (a v3 connection cannot carry FUNCTION / AGGREGATE targets: such a node says nothing)
+					if raw, err := world.TryEncodeFrame(other.Compression, frame.NewFrame(other.Version, -1, msg)); err == nil {
+						other.Link.PeerWrite(raw)
+						w.Stat("probe.c14.event_on_second_registered_connection")
+					}
+				}
 			}
 			fr := frame.NewFrame(cc.Version, -1, msg)
 			ev := &emitted{id: id, msg: msg, conn: cc}
